@@ -276,12 +276,22 @@ def render_map_header(m):
     return (s + " ").encode()
 
 
+def smaps_value_line(name, kb):
+    # fs/proc/task_mmu.c SEQ_PUT_DEC: the label literal always ends with a
+    # blank; the value is right-aligned to 8 columns (7 for the 16-character
+    # label "Private_Hugetlb:")
+    label = name + ":"
+    if len(label) >= 16:
+        return ("%s %7d kB" % (label, kb)).encode()
+    return ("%-16s%8d kB" % (label, kb)).encode()
+
+
 def render_smaps(p):
     out = []
     for m in p.maps:
         out.append(render_map_header(m))
         for name, kb in m.fields:
-            out.append(("%-16s%8d kB" % (name + ":", kb)).encode())
+            out.append(smaps_value_line(name, kb))
         for raw in m.extra:
             out.append(raw)
     if not out:
@@ -308,7 +318,7 @@ def render_smaps_rollup(p):
            + b" [rollup]"]
     for k in ROLLUP_KEYS:
         if k in sums:
-            out.append(("%-16s%8d kB" % (k + ":", sums[k])).encode())
+            out.append(smaps_value_line(k, sums[k]))
     return b"\n".join(out) + b"\n"
 
 
